@@ -21,7 +21,8 @@ EXTENDS OrderSess, Json
 CONSTANTS MaxSteps,    \* length of the histories
           Shape,       \* "focused" | "free"
           SeedNames,   \* which seed heaps
-          Hist         \* TRUE: carry the history and print it (generator); FALSE: model checking
+          Hist,        \* TRUE: carry the history and print it (generator); FALSE: model checking
+          ErrOnly      \* seeds that get, in shape "focused", the single calls and the error-path histories "raise ; call" only
 
 VARIABLES S, S0, seed, prev, last, hist, n
 vars == <<S, S0, seed, prev, last, hist, n>>
@@ -70,6 +71,7 @@ Offered ==
     ELSE IF Shape = "free" THEN Calls(S) \cup Edits(S) \cup RaiseCalls(S) \cup {CmpsStep}
     ELSE CASE n = 0 -> Calls(S) \cup RaiseCalls(S)
            [] n = 1 /\ IsRaise(last) -> Calls(S) \cup {CmpsStep}                      \* "raise ; any call"
+           [] n = 1 /\ seed.name \in ErrOnly -> {}
            [] n = 1 -> Calls(S) \cup {e \in Edits(S) : EditTouches(S0, hist[1], e)}
            [] n = 2 /\ IsEdit(last) -> {st \in Repeats(S0, hist[1]) : Enabled(S, st)}
            [] OTHER -> {}
